@@ -168,3 +168,30 @@ Example never_again_nonvacuous :
   let s'' := fst (srun true s' [SAddEvent 2 0 (le_enc 8 1 ++ le_enc 8 9)]) in
   map fst (consume_pieces s [] ) = [0; 1; 2] /\ map fst (consume_pieces s'' []) = [2] /\ map (fun p => length (snd p)) (consume_pieces s'' []) = [2%nat].
 Proof. vm_compute. repeat split. Qed.
+
+(** * the replacement step itself *)
+Lemma find_chan_in uid cs c : find_chan uid cs = Some c -> In c cs /\ ch_uid c = uid.
+Proof.
+  induction cs as [|a r IH]; cbn [find_chan]; [discriminate|]. destruct (N.eqb_spec (ch_uid a) uid) as [E|E].
+  - intros H. inversion H; subst. split; [now left|reflexivity].
+  - intros H. destruct (IH H). split; [now right|assumption].
+Qed.
+
+(** the slow path of addEvent: the writer's old channel is closed in the resulting state, its uid is below the replacement's, and the
+    writer continues on the replacement *)
+Theorem replacement_closes_the_old_channel s0 w k p uid c0 : WInv s0 -> snd (add_event s0 w k p) = false ->
+  assoc w (writers s0) = Some uid -> find_chan uid (channels s0) = Some c0 ->
+  let s := fst (add_event s0 w k p) in
+  (exists c, In c (channels s) /\ ch_uid c = uid /\ ch_owner c = None) /\ uid < next_uid s0 /\
+  (exists cnew, In cnew (channels s) /\ ch_uid cnew = next_uid s0 /\ ch_owner cnew = Some w) /\ assoc w (writers s) = Some (next_uid s0).
+Proof.
+  intros HW Hslow Ha Hf. destruct (find_chan_in _ _ _ Hf) as [Hin Hu].
+  assert (Hlt : uid < next_uid s0) by (pose proof (W_lt s0 HW) as H; rewrite Forall_forall in H; rewrite <- Hu; now apply H).
+  unfold add_event in *. rewrite Ha, Hf in *. destruct (pbegin k _ (ch_q c0)) as [q1 ok]. destruct ok; [discriminate|]. cbn [fst channels writers].
+  split; [|split; [exact Hlt|split]].
+  - eexists. split.
+    + apply in_or_app. left. unfold close_chan, upd_chan. apply in_map. apply in_map. exact Hin.
+    + rewrite Hu, N.eqb_refl. cbn [ch_uid]. rewrite N.eqb_refl. cbn [ch_uid ch_owner]. split; reflexivity.
+  - eexists. split; [apply in_or_app; right; left; reflexivity|]. split; reflexivity.
+  - rewrite assoc_set_assoc. now rewrite N.eqb_refl.
+Qed.
